@@ -610,6 +610,45 @@ example : (⟨"f.py", "C.forward", .reduceCall, .lit 2, .omitted, some 1, "", ""
 
 end Sites
 
+/-! ## call histories: the modelled operators are functions of their arguments
+
+`Bridge/C02.helper_state_uses_none` decides that the real helpers keep no state between calls; the model of a call history
+is therefore the list of the individual results, and the result of a call does not depend on what was called before. -/
+section History
+variable {R : Type} [Add R] [Sub R] [Mul R] [Neg R] [Zero R] [Inhabited R]
+
+/-- one call of a coil / complex helper -/
+inductive CoilCall (R : Type) where
+  | expand (x S : Tensor (Cpx R)) (d : Int)
+  | reduce (y S : Tensor (Cpx R)) (d : Int)
+  | conj (a : Tensor (Cpx R))
+  | cmul (a b : Tensor (Cpx R))
+
+def CoilCall.eval : CoilCall R → Tensor (Cpx R)
+  | .expand x S d => expandOp x S d
+  | .reduce y S d => reduceOp y S d
+  | .conj a => conjT a
+  | .cmul a b => cmulT a b
+
+/-- the results of a history of calls -/
+def runHistory (h : List (CoilCall R)) : List (Tensor (Cpx R)) := h.map CoilCall.eval
+
+/-- **history independence**: the result of the last call is the same after any two histories -/
+theorem history_independent (h h' : List (CoilCall R)) (c : CoilCall R) :
+    (runHistory (h ++ [c])).getLast? = (runHistory (h' ++ [c])).getLast? := by
+  simp [runHistory]
+
+/-- … in particular `reduce_operator` after any history is `reduceOp` of its own arguments (so `adjoint_tensor` /
+`reduce_expand_id_tensor` apply at every step of a history) -/
+theorem reduce_after_history (h : List (CoilCall R)) (y S : Tensor (Cpx R)) (d : Int) :
+    (runHistory (h ++ [.reduce y S d])).getLast? = some (reduceOp y S d) := by
+  simp [runHistory, CoilCall.eval]
+
+example : (runHistory [CoilCall.conj (⟨[1], [⟨1, 2⟩]⟩ : Tensor (Cpx Int)), .conj ⟨[1], [⟨3, 4⟩]⟩]).getLast? =
+    some ⟨[1], [⟨3, -4⟩]⟩ := by decide
+
+end History
+
 /-! ### non-vacuity of the tensor-level statements -/
 open DirectVerif.C02T in
 example : CoilAxis [2] [3] 1 := CoilAxis.nonneg [2] [3]
